@@ -194,11 +194,11 @@ def handle (st : St) (line : String) : St × String :=
     match parseByte addr, parseBytes types, parseVendors vendors with
     | some a, some t, some v => (st.put id (Ctx.new a t v), "ok")
     | _, _, _ => (st, "bad-op")
-  | ["dec", pkt] =>
+  | ["dec", pkt] | ["dec", _, pkt] =>
     match parseBytes pkt with
     | some p => (st, showDec (decode p))
     | none => (st, "bad-op")
-  | ["len", pkt] =>
+  | ["len", pkt] | ["len", _, pkt] =>
     match parseBytes pkt with
     | some p => (st, showLen (getLength p))
     | none => (st, "bad-op")
@@ -221,7 +221,7 @@ def handle (st : St) (line : String) : St × String :=
       | (c', .panicked p) => (st.put id c', showPanic p)
       | (c', _) => (st.put id c', s!"ok {showEids c'}")
     | _, _ => (st, "bad-op")
-  | "enc" :: id :: dst :: name :: rest =>
+  | "enc" :: id :: dst :: name :: rest | "encr" :: id :: dst :: name :: rest =>
     match st.get id, parseByte dst, rest.getLast? with
     | some c, some d, some bufs =>
       match parseEnc name rest.dropLast, parseBytes bufs with
